@@ -1184,8 +1184,11 @@ pub(crate) fn rename_sheet_in_node(node: &mut Node, sheet_index: u32, new_name: 
             }
         }
         Node::WrongRangeKind { sheet_name, .. } => {
-            if sheet_name.is_some() {
-                *sheet_name = Some(new_name.to_owned());
+            // A range into a sheet that does not exist is not a reference to the renamed sheet
+            if let Some(name) = sheet_name {
+                if name.to_uppercase() == new_name.to_uppercase() {
+                    *sheet_name = Some(name.to_owned())
+                }
             }
         }
 
